@@ -1561,6 +1561,57 @@ def rule_a13(ctx):
 
 
 
+A14_BLOCKING = ("getaddrinfo", "nni_cv_wait", "nni_cv_until", "nni_msleep", "nni_aio_wait", "nni_task_wait", "nni_thr_wait", "poll", "select",
+                "epoll_wait", "nanosleep", "usleep", "sleep")
+
+
+def rule_a14(ctx):
+    r = ctx.rule("C02.A14", "T6", "the mark a cancel function tests stays on the operation while it can still be cancelled: where a "
+                 "registered cancel function decides ownership by nni_aio_get_prov_data(aio), every other function that clears "
+                 "that mark (nni_aio_set_prov_data(x, NULL)) goes on to complete x without blocking in between (no getaddrinfo, "
+                 "condition-variable wait or sleep is reachable before an nni_aio_finish* of x) -- with the mark cleared first "
+                 "and the long step afterwards, nng_aio_abort / close / timeout find nothing to cancel and have to wait for the "
+                 "step to end (a name lookup against a dead server: tens of seconds, with the reaper thread parked behind it)",
+                 floor=4)
+    prog = ctx.prog
+    cancels = cancel_functions(prog)
+    marked_files = set()
+    for g in cancels:
+        if not g.cfg_failed and any(True for _ in g.calls("nni_aio_get_prov_data")):
+            marked_files.add(g.file)
+    if not marked_files:
+        raise AnalysisBroken("no cancel function tests nni_aio_get_prov_data any more")
+    cancel_names = {g.name for g in cancels}
+    n = 0
+    for f in prog.functions:
+        if f.cfg_failed or f.file not in marked_files or f.name in cancel_names:
+            continue
+        for c in f.calls("nni_aio_set_prov_data"):
+            a = [f.expand(x) if x is not None else None for x in c.node["args"]]
+            if len(a) < 2 or not is_null(a[1]) or a[0] is None:
+                continue
+            x = show(a[0])
+            n += 1
+            fin = {(k.b, k.i) for k in f.calls(("nni_aio_finish", "nni_aio_finish_error", "nni_aio_finish_sync", "nni_aio_finish_msg"))
+                   if k.node["args"] and show(f.expand(k.node["args"][0])) == x}
+            seen = f.reach((c.b, c.i + 1), blocked=lambda b, i, e: (b, i) in fin)
+            bad = None
+            for k in f.calls():
+                if (k.b, k.i) in seen and (k.node.get("fn") in A14_BLOCKING):
+                    bad = k
+                    break
+            if bad is not None:
+                ctx.fail(r, f, "cancel mark of %s cleared before a blocking step" % x, c.line,
+                         "%s clears the provider mark of %s at line %s (the cancel function looks for it and returns when it is "
+                         "gone) and can then reach %s at line %s before it completes the operation: while that step lasts the "
+                         "operation cannot be cancelled, stopped or timed out" % (f.name, x, c.line, bad.node["fn"], bad.line))
+            else:
+                r.ob(f, "mark of %s cleared at line %s: completed without blocking in between" % (x, c.line))
+    if n < 4:
+        raise AnalysisBroken("only %d clears of a provider mark found" % n)
+
+
+
 def run(ctx):   # noqa: F811
     ctx.guard(rule_a1)
     ctx.guard(rule_a2)
@@ -1581,3 +1632,4 @@ def run(ctx):   # noqa: F811
     ctx.guard(rule_a11)
     ctx.guard(rule_a12)
     ctx.guard(rule_a13)
+    ctx.guard(rule_a14)
